@@ -272,7 +272,7 @@ fn run_family(
 
 fn markup_free(report: &Report, k: u32) {
     let parser = cfgs::parser(Config::Stdlib);
-    let alpha = ["a", "é", "👍", "e\u{301}", "{", "}", "%", "\"", "'", " ", "\t", "\r", "\n", "-", "|", "}}", "%}", "-%}", "{-", "\u{a0}", "\u{2028}", "\0"];
+    let alpha = ["a", "é", "👍", "e\u{301}", "{", "}", "%", "\"", "'", " ", "\t", "\r", "\n", "-", "|", "}}", "%}", "-%}", "{-", "\u{a0}", "\u{2028}", "\0", "\u{feff}"];
     let total = seq_count(alpha.len() as u64, k);
     let name = format!("markup-free/k<={k}");
     let nontriv = AtomicU64::new(0);
